@@ -10,7 +10,7 @@ import (
 	"verifharness/stats"
 )
 
-const ruleC01 = "rapid state machine: generated table schema (hash-only / hash+range, S/N/B keys), then Put / UpdateItem (SET, REMOVE, ADD, DELETE, upsert of absent keys) / DeleteItem (with and without ALL_OLD) / GetItem over a pool of 3-6 keys (for number keys in half of the cases adjacent 16-38 digit numbers, then without expressions), a fifth of the writes carrying a generated condition, and writes that are refused (key attribute missing or of the wrong type, wrongly typed or oversized index key, malformed update text, and the refused request sent a second time: the complete internal snapshot must be unchanged; if the implementation accepts a request DynamoDB rejects, the case ends there), executed on the SDK v1 and v2 clients and on the reference map model; after every step GetItem of every pool key, a full Scan, DescribeTable.ItemCount and the SortedKeys/Data white-box invariant are compared. Non-trivial = history touching >= 2 distinct keys and containing an overwrite, a delete-then-reput, an update-created item or a delete of an absent key; distinct = distinct hash of the executed operation list."
+const ruleC01 = "rapid state machine: generated table schema (hash-only / hash+range, S/N/B keys), then Put / UpdateItem (SET, REMOVE, ADD, DELETE, upsert of absent keys) / DeleteItem (with and without ALL_OLD) / GetItem over a pool of 3-6 keys (for number keys in half of the cases adjacent 16-38 digit numbers, then without expressions), a fifth of the writes carrying a generated condition, and writes that are refused (key attribute missing or of the wrong type, wrongly typed or oversized index key, malformed update text, and the refused request sent a second time: the complete internal snapshot must be unchanged; if the implementation accepts a request DynamoDB rejects, the case ends there), executed on the SDK v1 and v2 clients and on the reference map model; after every step GetItem of every pool key, a full Scan, DescribeTable.ItemCount and the SortedKeys/Data white-box invariant are compared. Once per history at most: 65-130 distinct update texts on one key, then the first three texts again with another value. Non-trivial = history touching >= 2 distinct keys and containing an overwrite, a delete-then-reput, an update-created item or a delete of an absent key; distinct = distinct hash of the executed operation list."
 
 // TestC01 decides property C01.
 func TestC01(t *testing.T) {
